@@ -55,6 +55,7 @@ type victim struct {
 	hosts    int
 	conns    int
 	kind     string
+	born     time.Time
 	tls      *tls.Config // non-nil: the victim's listener speaks TLS (--proxy-cert-file / --proxy-key-file)
 }
 
@@ -436,12 +437,33 @@ func getVictim(real bool, maxV, hosts, conns int, useTLS bool) (*victim, error) 
 		v.stop()
 		delete(victims, key)
 	}
+	// every live victim costs the machine a process with millisecond timers and a fake cluster: keep few
+	for len(victims) >= 6 {
+		oldest := ""
+		for k, x := range victims {
+			if oldest == "" || x.born.Before(victims[oldest].born) {
+				oldest = k
+			}
+		}
+		victims[oldest].stop()
+		delete(victims, oldest)
+	}
 	v, err := startVictim(real, maxV, hosts, conns, useTLS)
 	if err != nil {
 		return nil, err
 	}
+	v.born = time.Now()
 	victims[key] = v
 	return v, nil
+}
+
+func stopVictims() {
+	victimMu.Lock()
+	defer victimMu.Unlock()
+	for k, v := range victims {
+		v.stop()
+		delete(victims, k)
+	}
 }
 
 func dropVictim(v *victim) {
@@ -730,6 +752,8 @@ func c17BackendCheck(c c17Backend) *evid.Fail {
 	if err != nil {
 		return evid.Failf("harness-victim", "%v", err)
 	}
+	v.cl.ClearInternal() // hostile replies a previous case queued but the proxy never asked for
+	defer v.cl.ClearInternal()
 	cl, err := rawcli.Dial(v.addr)
 	if err != nil {
 		return evid.Failf("harness-client", "%v", err)
@@ -906,6 +930,7 @@ func TestC17(t *testing.T) {
 		}
 		return c
 	}, c17ClientCheck)
+	stopVictims() // the backend family starts with fresh victims
 	// a fixed handful: UNPREPARED naming an id that is in the proxy's cache, in answer to the proxy's own requests
 	runEnum(t, rec, "backend-fixed", func(yield func(c17Backend) bool) {
 		for _, internal := range []string{"options", "use", "options", "system_local"} {
